@@ -31,20 +31,20 @@ FILES = [
 REQUIRED_THEOREMS = [
     "C10_fid_overlap", "C10_fid_range", "C10_fid_self", "C10_fid_phase_invariant",
     "C10_kl_formula", "C10_kl_nonneg", "C10_kl_self_zero", "C10_nll_formula", "C10_kind",
-    "C10_fid_mixed_partial", "C10_fid_mixed_self", "C10_nll_perm", "C10_kl_self_zero_mixed", "C10_kl_formula_mixed",
+    "C10_fid_mixed_partial", "C10_fid_mixed_self", "C10_fid_mixed_uhlmann", "C10_fid_mixed_range", "C10_fid_mixed_self_uhlmann", "C10_nll_perm", "C10_kl_self_zero_mixed", "C10_kl_formula_mixed",
     "C10_kl_nonneg_mixed", "C10_nll_formula_mixed", "C10_fid_rbm", "C10_kl_self_zero_rbm", "C10_known_F10_witness",
 ]
 EXTRA_TRUSTED = [
     "np.linalg.eigvals is external to the model (its result is an argument of fidelityMixed); the harness checks every "
     "returned eigenvalue against the characteristic-polynomial residual of the matrix the implementation passed",
-    "Uhlmann's identity (sum sqrt eig(sigma rho))^2 = (tr sqrt(sqrt rho sigma sqrt rho))^2 is NOT proved (C10_fid_mixed_partial); "
+    "Uhlmann fidelity: proved (C10_fid_mixed_uhlmann/_range/_self_uhlmann) GIVEN that np.linalg.eigvals returns the characteristic-polynomial roots of target*rho (trusted, checked numerically by the harness); "
     "it is only checked numerically against the eigh/sqrtm oracle",
     "C04 (rotations = dense Kronecker unitary, norm preservation) and C01/C02 (|psi|^2 = probability, rho diagonal = probability) "
     "discharge the explicit hypotheses of the C10 theorems",
 ]
 THEOREMS = {
     "fid_pure": "C10_fid_overlap, C10_fid_range, C10_fid_self, C10_fid_phase_invariant",
-    "fid_mixed": "C10_fid_mixed_partial",
+    "fid_mixed": "C10_fid_mixed_uhlmann, C10_fid_mixed_range",
     "kl": "C10_kl_formula, C10_kl_nonneg, C10_kl_self_zero",
     "nll": "C10_nll_formula",
     "kind": "C10_kind",
@@ -287,7 +287,7 @@ def fidelity_case(ctx, case):
                 ctx.count("scipy_sqrtm_oracle")
         ctx.oracle("fidelity in [0,1]", -1e-12 <= F <= 1 + 1e-6, case, detail={"F": F}, sig=sig0 + "/range")
         if tclass == "self":
-            ctx.oracle("self fidelity == 1", abs(F - 1) <= 1e-6, case, detail={"F": F}, sig=sig0 + "/self", theorem="C10_fid_mixed_partial")
+            ctx.oracle("self fidelity == 1", abs(F - 1) <= 1e-6, case, detail={"F": F}, sig=sig0 + "/self", theorem="C10_fid_mixed_self_uhlmann")
 
 
 # ---------------------------------------------------------------- KL
